@@ -81,13 +81,15 @@ def sort_of(ty):
         return _OPQ_SORTS[n]
     if k == "seq":
         return z3.SeqSort(sort_of(ty.args[0]))
+    if k == "bv":
+        return z3.BitVecSort(ty.args[0])
     if k == "set":
         return z3.ArraySort(sort_of(ty.args[0]), z3.BoolSort())
     raise TypeError("no SMT sort for type %r" % (ty,))
 
 
 def is_prim(ty):
-    return ty.kind in ("int", "bool", "str", "bits", "opq", "seq", "set")
+    return ty.kind in ("int", "bool", "str", "bits", "opq", "seq", "set", "bv")
 
 
 class Val:
